@@ -749,6 +749,25 @@ def recursion_forwards(fn):
     return kws.get("style_kwargs") == "style_kwargs"
 
 
+def temp_style_restored(fn):
+    """utility.style_temp_edit: the object's own style is put back in a `finally` that encloses the yield"""
+    node = fn_ast(fn)
+    tries = [n for n in ast.walk(node) if isinstance(n, ast.Try)]
+    if len(tries) > 1:
+        fail("style_temp_edit: more than one try statement")
+    if not tries:
+        return False
+    t = tries[0]
+    has_yield = any(isinstance(n, (ast.Yield, ast.YieldFrom)) for b in t.body for n in ast.walk(b))
+    restores = any(ast.unparse(x) == "obj._style = orig_style" for x in t.finalbody)
+    outside = [n for n in ast.walk(node) if isinstance(n, (ast.Yield, ast.YieldFrom))]
+    if t.handlers or t.orelse or len(outside) != 1:
+        fail("style_temp_edit: try statement of unknown shape")
+    if "orig_style = getattr(obj, '_style', None)" not in [ast.unparse(x) for x in node.body]:
+        fail("style_temp_edit: the original style is not saved first")
+    return has_yield and restores
+
+
 def collect(repo, strict=True):
     """everything GenStyle.v is printed from, as python structures (also used by harness/props/C20.py).
     strict=False (search only, never for the Coq text): a whole-body source form that is not recognised
@@ -856,6 +875,8 @@ def collect(repo, strict=True):
             SCS_FORMS, "Collection.set_children_styles") == "copy",
         "style_setter_takes_instance": whole_body_(basegeo._validate_style, VALIDATE_STYLE_FORMS,   # pylint: disable=protected-access
                                                   "BaseGeo._validate_style") == "takeover",
+        "temp_style_restored_in_finally": guarded(lambda: temp_style_restored(
+            importlib.import_module("magpylib._src.utility").style_temp_edit.__wrapped__)),
         "recursion_forwards_style_kwargs": guarded(lambda: recursion_forwards(
             mods["magpylib._src.display.traces_utility"].get_flatten_objects_properties_recursive)),
     }
@@ -921,6 +942,7 @@ def generate(repo):
     out.append(f"Definition subobject_instance_copied : bool := {b(fl['subobject_instance_copied'])}.")
     out.append(f"Definition set_children_copies_arg : bool := {b(fl['set_children_copies_arg'])}.")
     out.append(f"Definition style_setter_takes_instance : bool := {b(fl['style_setter_takes_instance'])}.")
+    out.append(f"Definition temp_style_restored_in_finally : bool := {b(fl['temp_style_restored_in_finally'])}.")
     out.append(f"Definition recursion_forwards_style_kwargs : bool := {b(fl['recursion_forwards_style_kwargs'])}.\n")
     out.append("Definition colors : color_table :=\n  "
                + clist([f"({cval(v)}, {coval(r)})" for v, r in g["colors"]], ";\n   ") + ".\n")
